@@ -15,7 +15,8 @@ UNITS = [sockunits.ERRMAP, sockunits.IO_WAIT, sockunits.SEND, sockunits.RECV, so
     S("set_blocking", "h_set_blocking", "p_socket_set_blocking"),
     S("set_listen_backlog", "h_set_listen_backlog", "p_socket_set_listen_backlog"),
     S("set_keepalive", "h_set_keepalive", "p_socket_set_keepalive", canaries=2),
-    S("getters_and_free", "h_getters_and_free", None, [EM], functions=["p_socket_free", "p_socket_get_fd", "p_socket_get_timeout", "p_socket_is_closed", "p_socket_is_connected"]),
+    S("getters_and_free", "h_getters_and_free", None, [EM], functions=["p_socket_free", "p_socket_get_fd", "p_socket_get_timeout", "p_socket_is_closed", "p_socket_is_connected", "p_socket_get_family", "p_socket_get_type", "p_socket_get_protocol", "p_socket_get_keepalive", "p_socket_get_blocking", "p_socket_get_listen_backlog"]),
+    S("get_addresses", "h_get_addresses", None, [EM], canaries=4, functions=["p_socket_get_local_address", "p_socket_get_remote_address", "p_socket_address_new_from_native"]),
 ]
 REQUIRE_CONFIGURED = ["psocket.c", "psysclose-unix.c"]
 TECHNIQUE = "CBMC function contracts (DFCC) on the public API of psocket.c over a ghost descriptor table (live, close-on-exec, non-blocking); loop contract on the poll loop"
